@@ -48,6 +48,9 @@ pub fn extreme_values() -> Vec<(String, Value)> {
     v.push(Value::Timestamp(chrono::DateTime::<chrono::Utc>::MAX_UTC.fixed_offset()));
     v.push(Value::Timestamp(chrono::DateTime::<chrono::Utc>::MAX_UTC.with_timezone(&chrono::FixedOffset::west_opt(23 * 3600 + 59 * 60).unwrap())));
     v.push(Value::Timestamp(chrono::DateTime::<chrono::Utc>::MIN_UTC.with_timezone(&chrono::FixedOffset::east_opt(23 * 3600 + 59 * 60).unwrap())));
+    // the two remaining corners: local time beyond chrono's own limits
+    v.push(Value::Timestamp(chrono::DateTime::<chrono::Utc>::MIN_UTC.with_timezone(&chrono::FixedOffset::west_opt(23 * 3600 + 59 * 60).unwrap())));
+    v.push(Value::Timestamp(chrono::DateTime::<chrono::Utc>::MAX_UTC.with_timezone(&chrono::FixedOffset::east_opt(23 * 3600 + 59 * 60).unwrap())));
     v.push(Value::Function(Arc::new("size".to_string()), None));
     v.push(Value::Function(Arc::new("nope".to_string()), Some(Box::new(Value::Int(1)))));
     v.into_iter().enumerate().map(|(i, x)| (format!("v{}", i), x)).collect()
